@@ -99,7 +99,7 @@ def check_returns(cx, f, L, sub):
 def _pattern(ck, p):
     rule = "R-C01-pattern"
     impls = p.impls_of_method(MATCHES)
-    ck.floor(rule, "impls of Pattern::matches", len(impls), 24)
+    ck.floor(rule, "impls of Pattern::matches", len(impls), 14)
     for f in impls:
         ck.saw(f)
         cx = Ctx(p, {"call": matches_hook, "peel": 2})
@@ -154,7 +154,7 @@ def _consumers(ck, p):
                 ck.undecided(rule, key, f.loc(r["ln"]), r["what"] + ": not decided (opaque ingredient); facts: %s" % r["facts"][:6])
             else:
                 ck.refuted(rule, key, f.loc(r["ln"]), r["what"] + " can be out of bounds, e.g. " + r["model"])
-    ck.floor(rule, "consumer functions", n, 4)
+    ck.floor(rule, "consumer functions", n, 2)
 
 
 # lexer table ---------------------------------------------------------------------------------------
@@ -180,7 +180,7 @@ def _lexer(ck, p):
     if table is None:
         ck.refuted(rule, "anchor-missing:lexer-table", f.span, "the array of lexer functions in lex_token was not found")
         return
-    ck.floor(rule, "entries of the lexer table", len(table), 14)
+    ck.floor(rule, "entries of the lexer table", len(table), 8)
     for i, nm in enumerate(table):
         g = p.fns.get(nm)
         if g is None:
@@ -379,7 +379,7 @@ def _spans(ck, p):
             else:
                 affine += 1
                 ck.refuted(rule, key, g.loc(r["ln"]), "%s panics (start > end) for %s" % (r["what"], r["model"]))
-    ck.floor(rule, "Span::new call sites analysed", sites, 10)
+    ck.floor(rule, "Span::new call sites analysed", sites, 6)
     ck.extra["span_sites_with_affine_operands"] = affine
 
 
@@ -490,7 +490,7 @@ def _loops(ck, p):
                 else:
                     ck.proved(rule, key, f.loc(t["ln"]), "the None arm leaves the loop")
     ck.extra["natural_loops_in_scope"] = n_loops
-    ck.floor(rule, "natural loops in parser-side scope", n_loops, 20)
+    ck.floor(rule, "natural loops in parser-side scope", n_loops, 12)
     ck.floor(rule, "get(cursor) sites with a monotone cursor", n_sites, 1)
 
 
@@ -663,7 +663,7 @@ def _precond(ck, p):
         for bi, t in g.calls():
             if (t["f"].get("inst") or "") == EDIT:
                 sites.append((g, bi, t))
-    ck.floor(rule, "call sites of edit_distance_min_alloc", len(sites), 2)
+    ck.floor(rule, "call sites of edit_distance_min_alloc", len(sites), 1)
     for g, bi, t in sites:
         ck.saw(g)
         cfg = Cfg(g)
